@@ -278,6 +278,10 @@ class LoopStub(_Stub):
             now = st.ghost.get('now')
             if now is None: raise Unsupported('loop.time(): no ghost clock `now` in this proof')
             return [(st, ZV('real', now))]
+        h = ex.spec.calls.get(f'asyncio.get_running_loop().{name}')
+        if h is not None and not hasattr(h, 'key'):
+            # the loop was bound to a local name first: same contract as for the direct call (the arguments are pure expressions)
+            return h(ex, node, st)
         raise Unsupported(f'event loop method {name} has no contract')
 
 
